@@ -40,6 +40,8 @@ def make_wiki(cfg):
     a_old = "Alpha old text."
     a_new = "Alpha text %s %s end." % (call, direct)
     pages["Alpha"] = [(11, a_old), (12, a_new)] if cfg["revs"] != "single" else [(12, a_new)]
+    if cfg["revs"] == "two-pins":
+        pages["Alpha"].insert(0, (10, "Alpha oldest text."))
     pages["Beta"] = [(21, "Beta text %s." % (img_markup if img == "shared" else ""))]
     if img != "none":
         images.append("File:Pic one.png")
@@ -47,7 +49,11 @@ def make_wiki(cfg):
             images += ["File:Pic two.png", "File:Pic three.png"]
     red = cfg["redirect"]
     articles = []
-    if red == "none":
+    if red == "none" and cfg["revs"] in ("both", "both-reversed", "two-pins"):
+        # one article listed twice at different revisions (e.g. current in one chapter, pinned in another)
+        articles += {"both": [("Alpha", None), ("Alpha", 11)], "both-reversed": [("Alpha", 11), ("Alpha", None)],
+                     "two-pins": [("Alpha", 10), ("Alpha", 11)]}[cfg["revs"]]
+    elif red == "none":
         articles.append(("Alpha", 11 if cfg["revs"] == "pinned-old" else None))
     elif red == "single":
         pages["Rd"] = [(31, "#REDIRECT [[Alpha]]")]
@@ -86,8 +92,10 @@ class Configs(Space):
                 if img == "deep" and tdepth == 0:
                     continue
                 for red in ("none", "single", "chain", "self", "cycle", "dead"):
-                    for revs in ("single", "two", "pinned-old"):
-                        if revs == "pinned-old" and red != "none":
+                    for revs in ("single", "two", "pinned-old", "both", "both-reversed", "two-pins"):
+                        if revs not in ("single", "two") and red != "none":
+                            continue
+                        if revs in ("both", "both-reversed", "two-pins") and tier == "quick" and (img == "shared" or tdepth == 1):
                             continue
                         for two in (False, True):
                             for missing in (False, True):
@@ -111,7 +119,9 @@ class Configs(Space):
         self.cases = cs
         rep = [c for c in cs if c["tdepth"] == 2 and c["img"] in ("deep", "shared") and c["two"] and not c["missing"] and not c["noimages"]
                and c["redirect"] in ("none", "single") and c["revs"] == "single" and not c["chapters"]]
-        self.rep = rep[:6] if tier == "quick" else rep[:40]
+        rep2 = [c for c in cs if c["revs"] in ("both", "two-pins") and c["tdepth"] == 0 and c["img"] == "none" and not c["two"] and not c["missing"]
+                and not c["noimages"] and not c["chapters"] and c["limit"] == 1]
+        self.rep = (rep[:6] + rep2[:2]) if tier == "quick" else (rep[:40] + rep2)
         for c in self.rep:
             d = dict(c)
             d["sched"] = "explore"
